@@ -12,6 +12,8 @@ RULE = ("case = one spelling {lower, UPPER, Mixed} x {unquoted, each quote style
 
 FAMILIES = {"ansi": ['"'], "snowflake": ['"'], "postgres": ['"'], "mysql": ["`"], "bigquery": ["`"], "sparksql": ["`"], "tsql": ["[", '"'], "non-validating": ['"', "`"]}
 CASES = {"lower": "nm", "upper": "NM", "mixed": "Nm"}
+NON_ASCII = {"dbx": "dbé", "scy": "scé", "tbz": "tbé", "colq": "colé", "alq": "alé"}
+NON_ASCII_DIALECTS = ["postgres", "tsql", "duckdb", "non-validating"]
 
 
 def spell(base, case, quote):
@@ -39,13 +41,14 @@ def adjusted_part(p, lower_quoted):
     return norm_part(p).lower() if lower_quoted else norm_part(p)
 
 
-def grid(dialect, quotes):
+def grid(dialect, quotes, nm=None):
     """yield (position, sql, expected, adjust) ; expected = {source, target, pairs}; adjust describes the KF-16 defect-adjusted variant"""
+    nm = nm or {k: k for k in ("dbx", "scy", "tbz", "colq", "alq")}
     out = []
     styles = [None] + quotes
     for case, q in itertools.product(CASES, styles):
         for nparts in (1, 2, 3):
-            parts = [spell(b, case, q) for b in ["dbx", "scy", "tbz"][3 - nparts:]]
+            parts = [spell(b, case, q) for b in [nm["dbx"], nm["scy"], nm["tbz"]][3 - nparts:]]
             name = ".".join(parts)
             T = norm_table(parts)
             # KF-16b: quoted non-lower-case schema parts are lower-cased while the table part is not
@@ -66,7 +69,7 @@ def grid(dialect, quotes):
             if nparts == 2:
                 out.append(("qualifier_of_qualified_table", f"insert into tgt_t select {parts[-1]}.c1 from {name}", {"source": [T], "target": ["<default>.tgt_t"], "pairs": [[f"{T}.c1", "<default>.tgt_t.c1"]]},
                             {"source": [Tb], "target": ["<default>.tgt_t"], "pairs": [[f"{Tb}.c1", "<default>.tgt_t.c1"]]}, "KF-16b"))
-        c = spell("colq", case, q)
+        c = spell(nm["colq"], case, q)
         C = norm_part(c)
         # KF-16a: a quoted non-lower-case column keeps its case as a target but is lower-cased as a source
         Cs = C.lower()
@@ -81,7 +84,7 @@ def grid(dialect, quotes):
                     # defect-adjusted: the chain breaks at mid_t - written as C, read as lower(C)
                     {"source": ["<default>.src_t"], "target": ["<default>.fin_t"], "intermediate": ["<default>.mid_t"],
                      "pairs": sorted([[f"<default>.src_t.{Cs}", f"<default>.mid_t.{C}"], [f"<default>.mid_t.{Cs}", f"<default>.fin_t.{C}"]]) if C != Cs else [[f"<default>.src_t.{C}", f"<default>.fin_t.{C}"]]}, "KF-16a"))
-        a = spell("alq", case, q)
+        a = spell(nm["alq"], case, q)
         out.append(("alias", f"insert into tgt_t select {a}.c1 from src_t {a}", {"source": ["<default>.src_t"], "target": ["<default>.tgt_t"], "pairs": [["<default>.src_t.c1", "<default>.tgt_t.c1"]]}, None, None))
         out.append(("alias_as", f"insert into tgt_t select {a}.c1 from src_t as {a}", {"source": ["<default>.src_t"], "target": ["<default>.tgt_t"], "pairs": [["<default>.src_t.c1", "<default>.tgt_t.c1"]]}, None, None))
         out.append(("derived_alias", f"insert into tgt_t select {a}.c1 from (select c1 from src_t) {a}", {"source": ["<default>.src_t"], "target": ["<default>.tgt_t"], "pairs": [["<default>.src_t.c1", "<default>.tgt_t.c1"]]}, None, None))
@@ -92,12 +95,12 @@ def grid(dialect, quotes):
         out.append(("alias_star_qualified_table", f"insert into tgt_t select {a}.* from scy.src_t {a}", {"source": ["scy.src_t"], "target": ["<default>.tgt_t"], "pairs": [["scy.src_t.*", "<default>.tgt_t.*"]]}, None, None))
         if q is None:
             # unquoted identifiers compare case-insensitively: defined in one case pattern, referenced in another
-            other = spell("alq", {"lower": "upper", "upper": "mixed", "mixed": "lower"}[case], None)
+            other = spell(nm["alq"], {"lower": "upper", "upper": "mixed", "mixed": "lower"}[case], None)
             out.append(("alias_other_case", f"insert into tgt_t select {other}.c1, {other}.* from src_t {a}",
                         {"source": ["<default>.src_t"], "target": ["<default>.tgt_t"], "pairs": [["<default>.src_t.*", "<default>.tgt_t.*"], ["<default>.src_t.c1", "<default>.tgt_t.c1"]]}, None, None))
-            oc = spell("colq", {"lower": "upper", "upper": "mixed", "mixed": "lower"}[case], None)
+            oc = spell(nm["colq"], {"lower": "upper", "upper": "mixed", "mixed": "lower"}[case], None)
             out.append(("column_other_case_across_statements", f"insert into mid_t select {c} from src_t; insert into fin_t select {oc} from mid_t",
-                        {"source": ["<default>.src_t"], "target": ["<default>.fin_t"], "intermediate": ["<default>.mid_t"], "pairs": [["<default>.src_t.colq", "<default>.fin_t.colq"]]}, None, None))
+                        {"source": ["<default>.src_t"], "target": ["<default>.fin_t"], "intermediate": ["<default>.mid_t"], "pairs": [[f"<default>.src_t.{nm['colq']}", f"<default>.fin_t.{nm['colq']}"]]}, None, None))
         out.append(("cte_name", f"insert into tgt_t with {a} as (select c1 from src_t) select {a}.c1 from {a}", {"source": ["<default>.src_t"], "target": ["<default>.tgt_t"], "pairs": [["<default>.src_t.c1", "<default>.tgt_t.c1"]]}, None, None))
     return out
 
@@ -133,6 +136,11 @@ def run(tier):
         for pos, sql, exp, adj, kfid in grid(d, quotes):
             cases.append({"sql": sql, "dialect": d, "want": []})
             meta.append((pos, exp, adj, kfid))
+    # the same grid over names with a letter outside A-Z (case folding is not an ASCII affair), for dialects whose lexer takes such names unquoted
+    for d in NON_ASCII_DIALECTS if tier == "quick" else NON_ASCII_DIALECTS + ["oracle", "redshift", "greenplum"]:
+        for pos, sql, exp, adj, kfid in grid(d, fams.get(d) or ident_quotes(d), nm=NON_ASCII):
+            cases.append({"sql": sql, "dialect": d, "want": []})
+            meta.append((pos + ":non_ascii", exp, adj, kfid))
     if tier == "thorough":
         from . import c01
         for d in c01.dialects():
@@ -145,6 +153,7 @@ def run(tier):
     for case, q in itertools.product(CASES, [None, '"', "`"]):
         for nparts in (1, 2, 3):
             api_names.append([spell(b, case, q) for b in ["dbx", "scy", "tbz"][3 - nparts:]])
+            api_names.append([spell(b, case, q) for b in [NON_ASCII["dbx"], NON_ASCII["scy"], NON_ASCII["tbz"]][3 - nparts:]])
     for parts in api_names:
         if all(p[0] not in "\"`" for p in parts):
             name = ".".join(parts)
@@ -177,6 +186,8 @@ def run(tier):
                 continue
             T = norm_table(parts)
             Tb = (".".join(norm_part(p).lower() for p in parts[:-1]) or "<default>") + "." + norm_part(parts[-1])
+            if r.get("other_case_same") is False:
+                run_.judge({"table_name": name}, "unquoted_name_in_another_letter_case_is_another_table", r, kf_id=None)
             if not (r["eq"] and r["hash_eq"] and r["col_eq"] and r["col_hash_eq"] and r["in_set"]):
                 run_.judge({"table_name": name}, "equal_entities_do_not_hash_equally", r, kf_id=None)
             if r["str"] != T:
@@ -216,12 +227,13 @@ def run(tier):
         if k is None and case["dialect"] == "non-validating":
             import json
 
-            low = json.loads(json.dumps(e).replace("<default>", "\u0000").lower().replace("\u0000", "<default>"))
+            low = json.loads(json.dumps(e, ensure_ascii=False).replace("<default>", "\u0000").lower().replace("\u0000", "<default>"))
+            pos0 = pos.split(":")[0]
             low["pairs"] = sorted(low["pairs"])
             quoted = any(ch in case["sql"] for ch in "\"`[")
-            if (quoted and o == low) or (pos == "insert_column_list" and o["pairs"] == [["<default>.src_t.c1", "<default>.tgt_t.c1"]]):
+            if (quoted and o == low) or (pos0 == "insert_column_list" and o["pairs"] == [["<default>.src_t.c1", "<default>.tgt_t.c1"]]):
                 k = "KF-16c"
-            if pos == "column_qualified_by_full_name" and o["source"] == low["source"] and o["target"] == low["target"]:
+            if pos0 == "column_qualified_by_full_name" and o["source"] == low["source"] and o["target"] == low["target"]:
                 first = low["source"][0].split(".")[0]
                 if o["pairs"] == [[f"<default>.{first}.c1", "<default>.tgt_t.c1"]]:
                     k = "KF-16e"  # the legacy analyzer takes the first part of a multi-part column reference as its qualifier
